@@ -191,11 +191,30 @@ def duplicate_id_cases(s):
                  ('roItemDelete', dict(story_ref='A', ids=['A.0'])),
                  ('roStorySend', dict(story_ref='X', body=[E('p', 'sent')], fields=['BODY'])),
                  ('roMetadataReplace', dict(carried=[E('roSlug', 'new slug')])),
-                 ('roReadyToAir', dict()), ('roDelete', dict())]
+                 ('roReadyToAir', dict()), ('roDelete', dict()),
+                 # several IDs in one delete, the repeated one not first: all of it or none of it
+                 ('roStoryDelete', dict(ids=['A', 'X'])), ('roStoryDelete', dict(ids=['B', 'gone', 'X'])),
+                 ('EAStoryDelete', dict(ids=['A', 'X'])), ('EAStoryDelete', dict(ids=['B', 'X', 'A'])),
+                 ('EAStoryMove', dict(ids=['A', 'X'], target=BLANK)), ('EAStoryMove', dict(ids=['B', 'X'], target='A'))]
         for kind, kw in cases:
             idx += 1
             if s.mine(idx):
                 K.run_case(s, dup_txt, kind, kw, ctx={'duplicates': 'present'})
+    # the same inside one story: items i1 d i2 d
+    for inames in (['i1', 'd', 'i2', 'd'], ['d', 'd', 'i1']):
+        st = B.story('S', 'slug', [B.item(n_, 'x%d' % k_) for k_, n_ in enumerate(inames)])
+        dup_txt = B.ro_doc('RO', 1, [gen.simple_story('P', 1), st, gen.simple_story('Q', 1)])
+        cases = [('roItemDelete', dict(story_ref='S', ids=['i1', 'd'])), ('roItemDelete', dict(story_ref='S', ids=['i1', 'gone', 'd'])),
+                 ('EAItemDelete', dict(story_ref='S', ids=['i1', 'd'])), ('EAItemDelete', dict(story_ref='S', ids=['d', 'i1'])),
+                 ('roItemMoveMultiple', dict(story_ref='S', ids=['i1', 'd'], target=BLANK)),
+                 ('EAItemMove', dict(story_ref='S', ids=['i1', 'd'], target=BLANK)),
+                 ('roItemInsert', dict(story_ref='S', target='d', carried=[B.item('n1', 'x')])),
+                 ('roItemReplace', dict(story_ref='S', target='i1', carried=[B.item('d', 'x'), B.item('n2', 'y')])),
+                 ('EAItemSwap', dict(story_ref='S', ids=['i1', 'd']))]
+        for kind, kw in cases:
+            idx += 1
+            if s.mine(idx):
+                K.run_case(s, dup_txt, kind, kw, ctx={'duplicates': 'present in a story'})
     s.hist['duplicate_id_cases'] = idx
 
 
@@ -212,6 +231,7 @@ def replay(s, data):
 def run(s):
     K.suite_workload(s)
     K.fixtures_workload(s)
+    K.recreate_cases(s)
     K.huge_cases(s, 2 if s.tier == 'quick' else 12)
     K.large_cases(s, 24 if s.tier == 'quick' else 600, 'both')
     K.pair_histories(s)
